@@ -206,9 +206,8 @@ def direct_effects(repo, f):
 
 def all_effects(repo):
     """transitive summaries for every function, to a fixed point"""
-    key = id(repo)
-    if key in _CACHE:
-        return _CACHE[key]
+    if getattr(repo, '_effects_cache', None) is not None:
+        return repo._effects_cache
     direct = {f.qual: (f, direct_effects(repo, f)) for f in repo.all_funcs()}
     total = {}
     for q, (f, e) in direct.items():
@@ -238,7 +237,7 @@ def all_effects(repo):
                         if not attrs <= cur:
                             cur |= attrs
                             changed = True
-    _CACHE[key] = total
+    repo._effects_cache = total
     return total
 
 
